@@ -194,7 +194,15 @@ def facts_dir(repo="/repo"):
     fcntl.flock(lockf, fcntl.LOCK_EX)
     try:
         if not os.path.exists(os.path.join(dest, "meta.json")):
-            extract(repo, dest)
+            try:
+                extract(repo, dest)
+            except ExtractError as first:
+                # one retry: a transient failure of the build under heavy parallel load must not be reported as a violation
+                time.sleep(2)
+                try:
+                    extract(repo, dest)
+                except ExtractError as second:
+                    raise ExtractError(str(second) + "\n(first attempt: " + str(first)[-600:] + ")")
             prune()
         else:
             os.utime(dest, None)
